@@ -2529,9 +2529,10 @@ get_literal(int token, YYLTYPE loc, const string &str, const YYSTYPE &value) {
     return CPPToken(CUSTOM_LITERAL, loc, str, result);
   }
 
+  // As with an unknown suffix, continue with the literal itself; a
+  // CUSTOM_LITERAL token must carry an expression.
   error(fgroup->_name + " has no suitable overload for literal of this type", loc);
-  result.u.expr = nullptr;
-  return CPPToken(CUSTOM_LITERAL, loc, str, result);
+  return CPPToken(token, loc, str, value);
 }
 
 /**
